@@ -31,7 +31,11 @@ class SQLLiteQueryBuilder(QueryBuilder):
     QUERY_CLS = SQLLiteQuery
 
     def __init__(self, **kwargs) -> None:
-        super().__init__(wrapper_cls=SQLLiteValueWrapper, **kwargs)
+        super().__init__(
+            wrapper_cls=SQLLiteValueWrapper,
+            wrap_set_operation_queries=False,
+            **kwargs,
+        )
 
     def get_sql(self, ctx: SqlContext | None = None) -> str:
         ctx = ctx or SQLLiteQuery.SQL_CONTEXT
